@@ -244,7 +244,7 @@ def large_face(run, funcs, N=260):
 def check_large_face_native(p, profile='debug'):
     """two generators on the axis of a ring of 300 others: their cells are 300-gon prisms (faces with 300 vertices)"""
     for prof in ('debug', 'release'):
-        o = engine.native(['polytope_ring 300'], prof)[0]
+        o = engine.native(['polytope_ring 700'], prof)[0]
         if o[0] != 'ok':
             return 'with_faces on the cells inside a ring of 300 generators panicked (%s build): %s' % (prof, ' '.join(o[1:12]))
         if o[1] != 'valid':
